@@ -47,6 +47,9 @@ ACTIONS = [("place-protected", i) for i in range(len(OIDS))] + [("place-unprotec
 # probe leaves an *empty* file under the final name for a moment, then removes it and places the complete object by rename
 
 
+THREAD_FAILS = []  # failures of the second writer thread (reported after the run: the code under analysis must not swallow them)
+
+
 def _apply(env, cache, st, action):
     kind, i = action
     oid = OIDS[i]
@@ -78,6 +81,21 @@ def _apply(env, cache, st, action):
         if not inner.lexists(path):
             inner.write(path, WORK[oid])
             inner._p_chmod(path, 0o444 if CLS == "local" else 0o644)
+    elif kind == "state-row" and cube("threads", False):
+        # the other writer is a *thread* of this process sharing the State object (as hashing pools do): it looks the object up and
+        # records it through the real State code on its own thread
+        if inner.lexists(path) and not inner.isdir(path):
+            inner.actor = 1
+            try:
+                st.get(path, env.fs)
+                if inner.read(path) == WORK[oid]:
+                    st.save(path, env.fs, HashInfo("md5", oid))
+            except HarnessGap:
+                raise
+            except Exception as e:  # noqa: BLE001
+                THREAD_FAILS.append((action, f"{type(e).__name__}: {e}"))
+            finally:
+                inner.actor = 0
     elif kind == "state-row":
         if inner.lexists(path):
             info = env.fs.info(path)
@@ -156,13 +174,18 @@ def h_interfere(e1: int, a1: int, e2: int, a2: int) -> bool:
             plan.append((k2, ACTIONS[act2]))
     env = make_env()
     try:
+        del THREAD_FAILS[:]
         try:
             cache, obj, cnt, st = _run(env, list(plan))
         except HarnessGap:
             raise
         except Exception as e:  # noqa: BLE001
+            if THREAD_FAILS:
+                violation("second-writer-thread-failed", (plan, THREAD_FAILS[0]))
             violation("writer-failed-under-interference", (plan, f"{type(e).__name__}: {e}"))
             return True
+        if THREAD_FAILS:
+            violation("second-writer-thread-failed", (plan, THREAD_FAILS[0]))
         with NoTracing():
             have = {o: d for o, d in env.odb_objects(cache).items() if ".tmp" not in o}
             for oid, data in WORK.items():
